@@ -36,6 +36,31 @@ type huffLine struct {
 type huffTable struct {
 	Lines []huffLine
 	codes []uint32 // assigned prefix codes
+
+	// index maps (prefix length, code) to the first line with that code.
+	// It is built together with the codes, so that decoding one value does
+	// not scan all lines once per bit (a symbol ID table has one line per
+	// symbol).
+	index map[uint64]int
+}
+
+func huffIndexKey(prefLen int, code uint32) uint64 {
+	return uint64(prefLen)<<32 | uint64(code)
+}
+
+// indexLines enters the lines from position start on into the index.
+func (t *huffTable) indexLines(start int) {
+	if t.index == nil {
+		t.index = make(map[uint64]int, len(t.Lines))
+	}
+	for i := start; i < len(t.Lines) && i < len(t.codes); i++ {
+		if l := t.Lines[i]; l.PrefLen > 0 {
+			key := huffIndexKey(l.PrefLen, t.codes[i])
+			if _, taken := t.index[key]; !taken {
+				t.index[key] = i
+			}
+		}
+	}
 }
 
 // newHuffTable creates a Huffman table and assigns canonical prefix codes.
@@ -48,6 +73,8 @@ func newHuffTable(lines []huffLine) *huffTable {
 func (t *huffTable) assignCodes() {
 	n := len(t.Lines)
 	t.codes = make([]uint32, n)
+	t.index = nil
+	defer t.indexLines(0)
 
 	// find max prefix length
 	maxLen := 0
@@ -193,24 +220,23 @@ func (t *huffTable) decode(r *huffReader) int64 {
 			r.err = io.ErrUnexpectedEOF
 			return 0
 		}
-		for i, l := range t.Lines {
-			if l.PrefLen == codeLen && t.codes[i] == code {
-				if l.IsOOB {
-					return oobResult
-				}
-				if l.RangeLen == 0 {
-					return int64(l.RangeLow)
-				}
-				offset := int64(r.readBits(l.RangeLen))
-				if r.eof {
-					r.err = io.ErrUnexpectedEOF
-					return 0
-				}
-				if l.IsLower {
-					return int64(l.RangeLow) - offset
-				}
-				return int64(l.RangeLow) + offset
+		if i, ok := t.index[huffIndexKey(codeLen, code)]; ok {
+			l := t.Lines[i]
+			if l.IsOOB {
+				return oobResult
 			}
+			if l.RangeLen == 0 {
+				return int64(l.RangeLow)
+			}
+			offset := int64(r.readBits(l.RangeLen))
+			if r.eof {
+				r.err = io.ErrUnexpectedEOF
+				return 0
+			}
+			if l.IsLower {
+				return int64(l.RangeLow) - offset
+			}
+			return int64(l.RangeLow) + offset
 		}
 		if codeLen > 32 {
 			r.err = fmt.Errorf("invalid Huffman code")
